@@ -741,7 +741,8 @@ class Shelxfile():
             elif word == 'NEUT':
                 # NEUT
                 # TODO: Implement NEUT class
-                if lastcard != 'SYMM':
+                # NEUT comes after LATT/SYMM and before SFAC (LATT does not change lastcard):
+                if lastcard not in ('ZERR', 'SYMM'):
                     raise ParseOrderError(debug=self.debug, verbose=self.verbose)
             elif word == 'OMIT':
                 # OMIT atomnames  or  OMIT s[-2] 2θ(lim)[180]  or  OMIT h k l
